@@ -8,7 +8,7 @@ PID="$1"; K="$2"; shift 2
 PROP="${PID%b}"; PROP="${PROP%c}"          # second / third round directories are named <ID>b, <ID>c
 CHECKS="${*:-$PROP}"
 SRC=/tmp/mut/$PID
-S=$(mktemp -d /tmp/cm-$PID-$K-XXXXXX)
+S=${CONFIRM_DIR:-$(mktemp -d /tmp/cm-$PID-$K-XXXXXX)}; mkdir -p "$S"
 git -C /repo archive HEAD | tar -x -C "$S"
 cd "$S" || exit 3
 run_demo() { PYTHONPATH="$S" NUMBA_NUM_THREADS=1 PYTHONDONTWRITEBYTECODE=1 timeout 900 /venv/bin/python "$SRC/demo$K.py" > "$S/.demo.out" 2>&1; echo $?; }
